@@ -127,6 +127,14 @@ func c11Apply(st *c11state, i int, s Step, idx int, observe bool) (viol *Viol) {
 // to the history's observation mode.
 func c11Churn(st *c11state, s Step, idx int, obs int) *Viol {
 	r := &Rng{s: mix(uint64(s.B)^0xc4c4, 0x11)}
+	// Swarm over operation kinds (B = stream + 1000 x mask): a churn with some kinds
+	// switched off stays in regions that a uniform mix leaves within a few operations.
+	// Without Set and SetOverflow the overflow part only ever moves by carries, so the
+	// counter has to travel its whole period to wrap: hidden state that a write to the
+	// overflow part resets (a wrap indicator above bit 23, S-c11e) survives from one
+	// wrap to the next only there.
+	mask := s.B / 1000
+	noSet, noOvf, noSqn, noRead, big := mask&1 != 0, mask&2 != 0, mask&4 != 0, mask&8 != 0, mask&16 != 0
 	for n := int64(0); n < s.A; n++ {
 		var op Step
 		switch x := r.Intn(100); {
@@ -153,6 +161,24 @@ func c11Churn(st *c11state, s Step, idx int, obs int) *Viol {
 			op = Step{Inst: s.Inst, Op: "SQN"}
 		default:
 			op = Step{Inst: s.Inst, Op: "Overflow"}
+		}
+		if mask != 0 {
+			off := (op.Op == "Set" && noSet) || (op.Op == "SetOverflow" && noOvf) || (op.Op == "SetSQN" && noSqn) ||
+				(noRead && (op.Op == "Get" || op.Op == "SQN" || op.Op == "Overflow"))
+			if off {
+				// a switched-off kind becomes the nearest thing that is still on: a jump of
+				// the sequence number to just below the carry, or a burst across it
+				if !noSqn && r.Chance(50) {
+					op = Step{Inst: s.Inst, Op: "SetSQN", A: int64(250 + r.Intn(6))}
+				} else {
+					op = Step{Inst: s.Inst, Op: "AddOne", A: int64(1 + r.Intn(600))}
+				}
+			}
+			if big && r.Chance(4) {
+				// an eighth to a half of the whole period in one burst: with the overflow
+				// writers off this is the only way round
+				op = Step{Inst: s.Inst, Op: "AddOne", A: []int64{1 << 21, 1<<22 + 1, 1<<23 - 255, 1 << 20}[r.Intn(4)] + int64(r.Intn(512))}
+			}
 		}
 		observe := obs == 0 || (obs == 1 && n%4 == 3)
 		if v := c11Apply(st, s.Inst, op, idx, observe); v != nil {
@@ -281,7 +307,20 @@ func genC11(seed, index uint64, start uint32, buf []Step) (History, bool) {
 			cnt := []int64{600, 2500, 6000, 12000, 40000}[r.Intn(5)]
 			cnt += int64(r.Intn(int(cnt / 2)))
 			nontrivial = true
-			steps = append(steps, Step{Inst: inst, Op: "Churn", A: cnt, B: int64(r.Intn(1000))})
+			stream := int64(r.Intn(1000))
+			if r.Chance(50) {
+				// swarm: some operation kinds switched off for this churn (see c11Churn)
+				mask := int64(1 + r.Intn(15))
+				if r.Chance(40) {
+					mask |= 3 // neither Set nor SetOverflow: the overflow part moves by carries only
+				}
+				if mask&3 == 3 && r.Chance(25) {
+					mask |= 16 // ... and bursts of up to half the period, several times round
+					cnt = 400 + int64(r.Intn(1200))
+				}
+				stream += 1000 * mask
+			}
+			steps = append(steps, Step{Inst: inst, Op: "Churn", A: cnt, B: stream})
 			// what the generator believes about the state afterwards only steers later
 			// bursts; the runner's model is authoritative
 			model[inst] = 0xffff00
@@ -291,6 +330,10 @@ func genC11(seed, index uint64, start uint32, buf []Step) (History, bool) {
 		case long && x < 35:
 			// 2^8, 2^16 and 2^17 are where hand-rolled carries and narrow side counters give up
 			k := []int64{255, 256, 257, 1000, 4096, 65535, 65536, 65537, 70000, 131072 + int64(r.Intn(512))}[r.Intn(10)]
+			if index%1024 == 5 && r.Chance(12) {
+				// once or twice round the whole period in one burst, nothing in between
+				k = []int64{mod24 - 1, mod24, mod24 + 1, 2*mod24 + 3, mod24 + 65536}[r.Intn(5)] - int64(r.Intn(3))
+			}
 			add(Step{Inst: inst, Op: "AddOne", A: k})
 		case x < 30:
 			add(Step{Inst: inst, Op: "AddOne"})
@@ -363,10 +406,11 @@ func c11ShrinkArgs(s Step) []Step {
 			try(s.A-s.A/8, s.B)
 			try(s.A-1, s.B)
 		}
-		try(s.A, 0)
+		try(s.A, s.B%1000)
 	case "AddOne":
 		if s.A > 1 {
 			try(s.A/2, 0)
+			try(s.A-mod24, 0)
 			try(s.A-1, 0)
 			try(s.A-256, 0)
 			try(s.A-65536, 0)
@@ -410,6 +454,16 @@ var c11Engine = &engine{
 		for _, s := range h.Steps {
 			if s.Op == "Churn" {
 				class = append(class, "deep_churn")
+				if s.B >= 1000 {
+					class = append(class, "deep_churn_some_kinds_off")
+				}
+				if (s.B/1000)&16 != 0 {
+					class = append(class, "deep_churn_carries_only_several_periods")
+				}
+				break
+			}
+			if s.Op == "AddOne" && s.A >= mod24-8 {
+				class = append(class, "full_period_burst")
 				break
 			}
 			if s.Op == "AddOne" && s.A > 1 {
@@ -458,7 +512,7 @@ func checkC11(tier string, seed uint64) int {
 		Coverage: map[string]interface{}{
 			"evaluations":         res.histories,
 			"distinct_nontrivial": res.distinct,
-			"rule": "one seeded operation history (8-44 steps over Set/SetSQN/SetOverflow/AddOne/Get/SQN/Overflow, 1-3 interleaved instances; every 64th history is a long-run history with bursts of 255..131k increments; every 128th contains a Churn step that the runner expands into 600-60 000 checked operations biased to wrap 2^24-1 -> 0 and to carry every few operations; state 0 is also entered as the zero value without Set) per start state; " +
+			"rule": "one seeded operation history (8-44 steps over Set/SetSQN/SetOverflow/AddOne/Get/SQN/Overflow, 1-3 interleaved instances; every 64th history is a long-run history with bursts of 255..131k increments; every 128th contains a Churn step that the runner expands into 600-60 000 checked operations biased to wrap 2^24-1 -> 0 and to carry every few operations, half of them with some operation kinds switched off (swarm), a tenth with neither Set nor SetOverflow and bursts of up to half the period so that the counter travels its whole period several times by carries alone; every 1024th history may contain a burst of one or two whole periods; state 0 is also entered as the zero value without Set) per start state; " +
 				"thorough enumerates every one of the 2^24 start states six times (twice per observation mode, a different seeded history each time), quick draws 2^19 boundary-biased ones; non-trivial = the history crosses a 255->0 sequence-number carry " +
 				"or the 2^24-1->0 wrap at least once; distinct = distinct start states among those",
 			"samples":                 samples,
